@@ -44,6 +44,18 @@ void Checkable::SendNotifications(NotificationType type, const CheckResult::Ptr&
 		if (!force) {
 			Log(LogInformation, "Checkable")
 				<< "Notifications are disabled for checkable '" << checkableName << "'.";
+
+			/* The incident is over even though nobody is told about the recovery: forget who was
+			 * notified about it. Otherwise the next incident's Acknowledgement notification
+			 * reaches users who were never told about that problem.
+			 */
+			if (type == NotificationRecovery) {
+				for (const Notification::Ptr& notification : GetNotifications()) {
+					if (!notification->IsPaused())
+						notification->GetNotifiedProblemUsers()->Clear();
+				}
+			}
+
 			return;
 		}
 	}
